@@ -741,6 +741,15 @@ class Prover:
             fs = self.fb.adt_fields(p) if p else None
             if fs and t[2] < len(fs):
                 return TYPE_RANGE.get(self.fb.ty(fs[t[2]]["ty"]).s, TOP)
+            if t[2] == 0 and t[1][0] == "downcast" and t[1][2] == 1 and t[1][1][0] == "call" and len(t[1][1]) > 3:
+                # the `Some(x)` payload of a call that returns Option<uN> (an iterator's next()): a uN
+                b = self.fb.body(t[1][1][3][0])
+                if b is not None:
+                    from symex import place_ty
+
+                    ty = place_ty(self.fb, b, b.blocks[t[1][1][3][1]]["term"]["dest"])
+                    if ty is not None and ty.s.startswith("std::option::Option<") and ty.s.endswith(">"):
+                        return TYPE_RANGE.get(ty.s[len("std::option::Option<"):-1], TOP)
         return TOP
 
     def _elem_range(self, t):
